@@ -41,7 +41,7 @@ func main() {
 			in = h.Arg("--out") + ".enc"
 		}
 		for _, op := range layoutOps() {
-			if op.name == h.Arg("--op") {
+			if op.name == h.Arg("--op") && op.run != nil {
 				must(op.run(in, h.Arg("--out"), cfg.Conf(), w))
 			}
 		}
